@@ -10,17 +10,25 @@ KEYWORDS = {
               "TAXA", "CHARACTERS", "DATA", "SETS", "CHARSET", "TRANSLATE", "TAXLABELS", "NTAX", "NCHAR", "=",
               "INTERLEAVE", "DATATYPE", "SYMBOLS", "\"", "MISSING", "GAP", "MATCHCHAR", "(", ")", "{", "}", ",",
               "[", "]", "'", ":", "#NEXUS", "*", "DNA", "CONTINUOUS", "STANDARD", "NTAX=2", "NCHAR=3", "-", ".", "ALL",
-              "\\", "[&R]", "ASSUMPTIONS", "CODONS", "PAUP", "1", "0", "A"],
+              "\\", "[&R]", "ASSUMPTIONS", "CODONS", "PAUP", "1", "0", "A",
+              # boundary values: work must not grow with the VALUE of a number, only with the length of the text
+              "99999999999", "1-99999999999", "1-.\\99999999999", "NCHAR=99999999999", "NTAX=99999999999", "NTAX=0", "NCHAR=0",
+              "1-3\\99999999999", "00", "\u00b2", "\u0663", "NCHAR=\u00b2", "\r", "\r\n"],
     "newick": ["(", ")", ",", ":", ";", "[", "]", "'", "[&R]", "[&U]", "[x]", "A", "B", "1.5", "0", "-1e-3", "{", "}", "=",
-               "\n", " ", "((", "))", ",,", "::", "[&W 1/2]", "_"],
-    "phylip": ["\n", " ", "  ", "2", "3", "10", "0", "A", "C", "G", "T", "-", "?", "N", "x", "taxon", "\t", "\n\n", "4 4", "Z"],
-    "fasta": ["\n", ">", "> ", ">a", "A", "C", "G", "T", "-", "?", "N", " ", "\n\n", "Z", "*", ">a\n", "1"],
+               "\n", " ", "((", "))", ",,", "::", "[&W 1/2]", "_",
+               ":1e400", ":-0", ":1e-400", "[&W 1/99999999999]", "[&W 99999999999/1]", ":99999999999", "\r", "\r\n", ":\u00b2", "{99999999999}"],
+    "phylip": ["\n", " ", "  ", "2", "3", "10", "0", "A", "C", "G", "T", "-", "?", "N", "x", "taxon", "\t", "\n\n", "4 4", "Z",
+               "99999999999 4", "2 99999999999", "99999999999", "\r", "\r\n", "\u0663", "1.5", "-2e1", "U", "R"],
+    "fasta": ["\n", ">", "> ", ">a", "A", "C", "G", "T", "-", "?", "N", " ", "\n\n", "Z", "*", ">a\n", "1",
+              "99999999999", "\r", "\r\n", "0.5", "-2e1", "U", "R", "\u00e9"],
 }
+# control characters, a BOM, non-ASCII letters and non-ASCII digits (str.isdigit() accepts more than int() does)
+EXOTIC = "\r\r\x00\ufeff\u00e9\u00b2\u0663\x0b\x0c\x1c\u2028"
 ALPHABET = {
-    "nexus": ";=,()[]{}'\":-_ \n#?.*\\/&" + "ABCTGabcn0123456789",
-    "newick": "(),:;[]' \n_&.-" + "ABCabc0123456789eE",
-    "phylip": " \n\t-?" + "ACGTNacgtxyz_0123456789",
-    "fasta": ">\n -?*" + "ACGTNacgtxyz0123456789",
+    "nexus": ";=,()[]{}'\":-_ \n#?.*\\/&" + "ABCTGabcn0123456789" + EXOTIC,
+    "newick": "(),:;[]' \n_&.-" + "ABCabc0123456789eE" + EXOTIC,
+    "phylip": " \n\t-?" + "ACGTNacgtxyz_0123456789." + EXOTIC,
+    "fasta": ">\n -?*" + "ACGTNacgtxyz0123456789." + EXOTIC,
 }
 
 # ------------------------------------------------------------------------------------------------
@@ -208,21 +216,38 @@ NEWICK_FIXED = [
 ]
 
 PHYLIP_FIXED = [
-    ({"strict": True, "interleaved": False}, "3 6\nalpha     ACGTAC\nbeta      AC-TAC\ngamma_long?CGTAA\n"),
-    ({"strict": False, "interleaved": False}, " 3 8\nalpha ACGT\nACGT\nbeta_2   AC-T AC-T\ngamma ACGTACG\nT\n"),
-    ({"strict": True, "interleaved": True}, "3 8\nalpha     ACGT\nbeta      AC-T\ngamma     A?GT\n\nTTAA\nTTCC\nTTGG\n"),
-    ({"strict": False, "interleaved": True, "multispace_delimiter": True},
+    ("dna", {"strict": True, "interleaved": False}, "3 6\nalpha     ACGTAC\nbeta      AC-TAC\ngamma_long?CGTAA\n"),
+    ("dna", {"strict": False, "interleaved": False}, " 3 8\nalpha ACGT\nACGT\nbeta_2   AC-T AC-T\ngamma ACGTACG\nT\n"),
+    ("dna", {"strict": True, "interleaved": True}, "3 8\nalpha     ACGT\nbeta      AC-T\ngamma     A?GT\n\nTTAA\nTTCC\nTTGG\n"),
+    ("dna", {"strict": False, "interleaved": True, "multispace_delimiter": True},
      "3 6\nsp one  ACG\nsp two  AC-\nsp three  A?G\n\nTTA\nTTC\nTTG\n"),
+    # the other documented data types: continuous (values separated by blanks), protein, standard, rna
+    ("continuous", {"strict": False, "interleaved": False}, "3 4\nalpha 0.5 -1 2e1 3\nbeta_2 1 2 3 4\ngamma 0.25 0.5\n0.75 1.0\n"),
+    ("continuous", {"strict": True, "interleaved": True}, "2 4\nalpha     0.5 -1\nbeta      1 2\n\n2e1 3\n3 4\n"),
+    ("protein", {"strict": False, "interleaved": False, "underscores_to_spaces": True}, "2 5\nsp_one ARNDC\nsp_two QEG-X\n"),
+    ("standard", {"strict": False, "interleaved": True}, "3 4\na 01\nb 1?\nc -0\n\n10\n01\n11\n"),
+    ("rna", {"strict": True, "interleaved": False}, "2 4\nu1        ACGU\nu2        UU-A\n"),
 ]
 
 FASTA_FIXED = [
     ("dna", ">alpha\nACGT\nAC\n\n>beta desc\nAC-TNN\n>gamma\nA?GTAC\n"),
     ("protein", ">p1\nARND\n>p2\nCQEG\n"),
+    ("rna", ">r1 x\nACGU\nUU\n>r2\nA-GUNN\n"),
+    ("standard", ">s1\n0101\n>s2\n1?0-\n"),
 ]
 
 
 def _doc(i, fmt, text, kw=None, dtype=None):
     return {"id": "%s-%s" % (fmt, i), "fmt": fmt, "text": text, "kw": kw or {}, "dtype": dtype}
+
+
+NEWLINE_VARIANTS = (("crlf", "\r\n"), ("cr", "\r"))
+
+
+def newline_variant(d, name):
+    """the same document with the line ends of another platform (still a valid document of its format)."""
+    nl = dict(NEWLINE_VARIANTS)[name]
+    return dict(d, id="%s-%s" % (d["id"], name), text=d["text"].replace("\n", nl), variant=name)
 
 
 def fixed_corpus():
@@ -231,8 +256,8 @@ def fixed_corpus():
         out.append(_doc("f%d" % i, "nexus", t, None, dt))
     for i, t in enumerate(NEWICK_FIXED):
         out.append(_doc("f%d" % i, "newick", t))
-    for i, (kw, t) in enumerate(PHYLIP_FIXED):
-        out.append(_doc("f%d" % i, "phylip", t, kw, "dna"))
+    for i, (dt, kw, t) in enumerate(PHYLIP_FIXED):
+        out.append(_doc("f%d" % i, "phylip", t, kw, dt))
     for i, (dt, t) in enumerate(FASTA_FIXED):
         out.append(_doc("f%d" % i, "fasta", t, None, dt))
     return out
@@ -373,7 +398,10 @@ def gen_phylip(rng):
     strict = rng.random() < 0.5
     inter = rng.random() < 0.5
     labels = ["tx%d" % i + "abcdefgh"[:rng.randint(0, 5)] for i in range(ntax)]
-    rows = _rows(rng, labels, nchar, "dna")
+    dtype = rng.choice(["dna", "dna", "rna", "protein", "standard", "continuous"])
+    rows = _rows(rng, labels, nchar, dtype)
+    if dtype == "continuous":
+        rows = [[v + " " for v in r] for r in rows]
 
     def lab(l):
         return (l[:10].ljust(10)) if strict else l + " " * rng.randint(1, 3)
@@ -393,12 +421,12 @@ def gen_phylip(rng):
                 lines.append("".join(r[cut:]))
             else:
                 lines.append(lab(l) + "".join(r))
-    return _doc("g", "phylip", "\n".join(lines) + "\n", {"strict": strict, "interleaved": inter}, "dna")
+    return _doc("g", "phylip", "\n".join(lines) + "\n", {"strict": strict, "interleaved": inter}, dtype)
 
 
 def gen_fasta(rng):
     ntax = rng.randint(1, 5)
-    dtype = rng.choice(["dna", "dna", "protein", "rna"])
+    dtype = rng.choice(["dna", "dna", "protein", "rna", "standard"])
     lines = []
     for i in range(ntax):
         lines.append(">s%d%s" % (i, rng.choice(["", " description", "|x|y"])))
@@ -431,7 +459,13 @@ def split_tokens(text):
 
 
 EDIT_OPS = ("del_char", "ins_char", "rep_char", "del_token", "dup_token", "rep_token", "swap_tokens", "drop_span",
-            "drop_line", "ins_keyword", "ins_keyword")
+            "drop_line", "ins_keyword", "ins_keyword", "rep_number", "newlines", "add_row")
+
+# boundary values a number of the document is replaced by (rep_number): zero, leading zeros, a negative, a value whose
+# MAGNITUDE is far beyond anything the document holds (a reader's work may grow with the length of the text, not with
+# the value of a number in it), a float overflow / underflow, characters that str.isdigit() accepts but int() refuses
+NUMBERS = ("0", "00", "-1", "99999999999", "99999999999", "1e400", "1e-400", "\u00b2", "\u0663", "1.5", "4294967296", "")
+_NUM = re.compile(r"[0-9]+")
 
 
 def edit(text, fmt, rng, op=None):
@@ -452,6 +486,40 @@ def edit(text, fmt, rng, op=None):
         i = rng.randrange(n)
         k = rng.randint(2, max(2, min(60, n // 3)))
         return text[:i] + text[i + k:], "drop_span@%d+%d" % (i, k)
+    if op == "rep_number":
+        ms = list(_NUM.finditer(text))
+        if not ms:
+            op = "ins_keyword"
+        else:
+            m = rng.choice(ms)
+            r = rng.choice(NUMBERS)
+            return text[:m.start()] + r + text[m.end():], "rep_number@%d:%r->%r" % (m.start(), m.group(), r)
+    if op == "newlines":
+        # line ends of another convention, in the whole document or from one point on (a file patched on another system)
+        nl = rng.choice(["\r\n", "\r", "\n\r", "\r\n"])
+        i = rng.choice([0, 0, rng.randrange(n)])
+        return text[:i] + text[i:].replace("\n", nl), "newlines@%d:%r" % (i, nl)
+    if op == "add_row":
+        # one more row than the document declares: a line repeated under a label no other row has
+        lines = text.split("\n")
+        cand = [k for k, l in enumerate(lines) if len(l.split()) >= 2 or l.startswith(">")]
+        if not cand:
+            op = "ins_keyword"
+        else:
+            i = rng.choice(cand)
+            l = lines[i]
+            lead = l[:len(l) - len(l.lstrip())]
+            body = l.lstrip()
+            new = rng.choice(["zq9", "'new row'", "A", "zq_9"])
+            if body.startswith(">"):
+                row = ">" + new
+                extra = [row] + lines[i + 1:i + 2]
+            else:
+                first = body.split()[0]
+                row = lead + (new.ljust(len(first)) if fmt == "phylip" else new) + body[len(first):]
+                extra = [row]
+            j = rng.choice([i + 1, i + 1, len(lines)])
+            return "\n".join(lines[:j] + extra + lines[j:]), "add_row@%d:%r" % (i, new)
     if op == "drop_line":
         lines = text.split("\n")
         i = rng.randrange(len(lines))
